@@ -111,6 +111,7 @@ type Cond struct {
 	Op   token.Token
 	A, B AV
 	Desc string
+	Site ssa.Instruction // lookupok: the lookup instruction
 }
 
 type BoolV struct {
@@ -154,15 +155,15 @@ func (c *Cond) String() string {
 
 // StrV kinds
 const (
-	skConst    = iota
-	skRaw      // a string parameter, untouched: Name
-	skNFKD     // NFKD(X)
-	skConcat   // Parts
-	skTok      // token Idx of Tokens
-	skJoin     // strings.Join(Arr, Sep)
-	skElem     // List[Index] (an element of a word list selected by an abstract integer)
-	skDecimal  // decimal rendering of integer X
-	skSlice    // substring of a constant with unknown bounds etc.
+	skConst   = iota
+	skRaw     // a string parameter, untouched: Name
+	skNFKD    // NFKD(X)
+	skConcat  // Parts
+	skTok     // token Idx of Tokens
+	skJoin    // strings.Join(Arr, Sep)
+	skElem    // List[Index] (an element of a word list selected by an abstract integer)
+	skDecimal // decimal rendering of integer X
+	skSlice   // substring of a constant with unknown bounds etc.
 	skTop
 )
 
@@ -178,9 +179,9 @@ type StrV struct {
 	List  *ListV
 }
 
-func CStr(s string) StrV       { return StrV{Kind: skConst, S: s} }
-func TopStr(why string) StrV   { return StrV{Kind: skTop, S: why} }
-func (s StrV) IsConst() bool   { return s.Kind == skConst }
+func CStr(s string) StrV     { return StrV{Kind: skConst, S: s} }
+func TopStr(why string) StrV { return StrV{Kind: skTop, S: why} }
+func (s StrV) IsConst() bool { return s.Kind == skConst }
 func (s StrV) String() string {
 	switch s.Kind {
 	case skConst:
@@ -345,12 +346,12 @@ type ObjKind int
 const (
 	okBig ObjKind = iota
 	okHash
-	okBuf   // make([]byte, n)
-	okArr   // make([]string, n)
-	okCell  // address-taken local (scalar/struct/array value)
-	okVec   // local array with per-element content (complit, varargs)
-	okMap   // map with known entries
-	okSB    // strings.Builder
+	okBuf  // make([]byte, n)
+	okArr  // make([]string, n)
+	okCell // address-taken local (scalar/struct/array value)
+	okVec  // local array with per-element content (complit, varargs)
+	okMap  // map with known entries
+	okSB   // strings.Builder
 )
 
 // Obj is an abstract heap/stack object (one per allocation site and calling context).
@@ -369,7 +370,7 @@ type PtrV struct {
 }
 
 type ElemRef struct {
-	Base AV   // ListV, TokensV, PtrV(vec/arr obj), PtrV(G) …
+	Base AV // ListV, TokensV, PtrV(vec/arr obj), PtrV(G) …
 	Idx  IntV
 }
 
@@ -448,7 +449,7 @@ func (t TopV) String() string { return "⊤(" + t.Why + ")" }
 // ---------------------------------------------------------------- errors
 
 const (
-	ekNil = iota
+	ekNil      = iota
 	ekSentinel // load of module global G
 	ekWrap     // fmt.Errorf with %w bound to sentinel G
 	ekFresh    // errors.New / fmt.Errorf without %w: certainly non-nil, matches no sentinel
@@ -519,9 +520,9 @@ func (b BigC) String() string {
 	return "big:⊤(" + b.Why + ")"
 }
 
-func BigTop(why string) BigC      { return BigC{Kind: bkTop, Why: why} }
-func BigLayout(l Layout) BigC     { return BigC{Kind: bkLayout, L: l.Norm()} }
-func BigConst(n *big.Int) BigC    { return BigC{Kind: bkConst, C: n} }
+func BigTop(why string) BigC   { return BigC{Kind: bkTop, Why: why} }
+func BigLayout(l Layout) BigC  { return BigC{Kind: bkLayout, L: l.Norm()} }
+func BigConst(n *big.Int) BigC { return BigC{Kind: bkConst, C: n} }
 
 // asLayout views constants 0 as the empty layout.
 func (b BigC) asLayout() (Layout, bool) {
@@ -610,7 +611,6 @@ func (c CellC) String() string {
 type VecC struct{ Elems []AV }
 
 func (v VecC) String() string { return "vec:" + VecV{v.Elems}.String() }
-
 
 // SBPart is one piece written to a strings.Builder; Cond (if set) is the branch condition
 // under which it was written, Pol its polarity.
